@@ -330,6 +330,7 @@ func (l *uint32LeafNode) unlock() { l.mutex.Unlock() }
 type Uint32Tree struct {
 	root  uint32Node
 	order int
+	mutex sync.Mutex // guards root; held only until the root node is locked
 }
 
 // NewUint32Tree returns a newly initialized Uint32Tree of the specified
@@ -349,6 +350,8 @@ func NewUint32Tree(order int) (*Uint32Tree, error) {
 
 // Delete removes the key-value pair from the tree.
 func (t *Uint32Tree) Delete(key uint32) {
+	t.mutex.Lock()
+	defer t.mutex.Unlock()
 	t.root.lock()
 	defer t.root.unlock()
 
@@ -367,6 +370,7 @@ func (t *Uint32Tree) Delete(key uint32) {
 // Insert inserts the key-value pair into the tree, replacing the existing value
 // with the new value if the key is already in the tree.
 func (t *Uint32Tree) Insert(key uint32, value interface{}) {
+	t.mutex.Lock()
 	n := t.root
 	n.lock()
 
@@ -389,6 +393,7 @@ func (t *Uint32Tree) Insert(key uint32, value interface{}) {
 			n = right
 		}
 	}
+	t.mutex.Unlock()
 
 	for n.isInternal() {
 		parent := n.(*uint32InternalNode)
@@ -466,8 +471,10 @@ func (t *Uint32Tree) Insert(key uint32, value interface{}) {
 func (t *Uint32Tree) Search(key uint32) (interface{}, bool) {
 	var value interface{}
 	var ok bool
+	t.mutex.Lock()
 	n := t.root
 	n.lock()
+	t.mutex.Unlock()
 	for n.isInternal() {
 		parent := n.(*uint32InternalNode)
 		child := parent.children[uint32SearchLessThanOrEqualTo(key, parent.runts)]
@@ -496,6 +503,7 @@ func (t *Uint32Tree) Search(key uint32) (interface{}, bool) {
 // returns, the key will exist in the tree with the new value returned by the
 // callback function.
 func (t *Uint32Tree) Update(key uint32, callback func(interface{}, bool) interface{}) {
+	t.mutex.Lock()
 	n := t.root
 	n.lock()
 
@@ -518,6 +526,7 @@ func (t *Uint32Tree) Update(key uint32, callback func(interface{}, bool) interfa
 			n = right
 		}
 	}
+	t.mutex.Unlock()
 
 	for n.isInternal() {
 		parent := n.(*uint32InternalNode)
@@ -602,8 +611,10 @@ func (t *Uint32Tree) Update(key uint32, callback func(interface{}, bool) interfa
 // of the locked node. The leaf node is only unlocked either by closing the
 // Cursor, or after all key-value pairs have been visited using Scan.
 func (t *Uint32Tree) NewScanner(key uint32) *Uint32Cursor {
+	t.mutex.Lock()
 	n := t.root
 	n.lock()
+	t.mutex.Unlock()
 	for n.isInternal() {
 		parent := n.(*uint32InternalNode)
 		child := parent.children[uint32SearchLessThanOrEqualTo(key, parent.runts)]
